@@ -44,10 +44,13 @@ SCALARS_OPTYX = [("C", 0.75), X, ("bin", "+", X, Y), ("bin", "*", ("c", 2), X), 
                  # variable-free arithmetic over a Parameter, and a Parameter multiplying a variable
                  ("bin", "*", ("c", 3), ("par", "p")), ("un", "neg", ("par", "p")), ("bin", "+", ("par", "p"), ("c", 1)),
                  ("bin", "*", ("par", "p"), X),
+                 # several variables whose natural order differs from their lexicographic order, different partials
+                 ("mm", ("arr", (1.0, 3.0, -2.0)), ("slice", ("vvar", "q", 11), 2, None, 4)),
+                 ("bin", "+", ("bin", "*", ("c", 3), ("idx", ("vvar", "q", 11), 2)), ("idx", ("vvar", "q", 11), 10)),
                  ("sum", V3), ("dot", V3, W3), ("bin", "-", ("bin", "**", X, ("c", 2)), Y), ("idx", V3, 1)]
 VECTORS_PLAIN = [("lst", (0.75, 2.0, -0.5)), ("arr", (0.75, 2.0, -0.5)), ("arr", (1.0, 2.0)), ("lst", (1.0, 2.0, 3.0, 4.0)),
                  ("arr", (0.75, 2.0, -0.5), "strided"), ("arr", (0.75, 2.0, -0.5), "reversed-view"), ("arr", (2, 0, -1), "int")]
-VECTORS_OPTYX = [V3, W3, ("slice", V4, 1, 4, None), ("slice", V3, None, None, -1), ("vbin", "+", V3, ("c", 1)),
+VECTORS_OPTYX = [V3, W3, ("slice", V4, 1, 4, None), ("slice", ("vvar", "q", 11), 2, None, 4),   # q[2], q[6], q[10]: natural != lexicographic order ("slice", V3, None, None, -1), ("vbin", "+", V3, ("c", 1)),
                  ("vbin", "*", V3, W3), ("rvbin", "-", ("c", 2), V3), ("mv", A23, V3), V4,
                  ("vneg", V3), ("row", M23, 0, None, None, None), ("vbin", "**", ("vbin", "+", V3, ("c", 0)), ("c", 2))]
 MATRICES_PLAIN = [("arr2", ((0.75, 2.0), (-0.5, 0.25))), ("lst2", ((0.75, 2.0), (-0.5, 0.25))),
@@ -171,6 +174,9 @@ def check_constraint(c, rep=None, want=None, capture=True):
         return fails
     # inside the solver: capture what reaches scipy for SLSQP and trust-constr (scripted answer, no real solve)
     obj = ("c", 0.0)
+    # the problem has two more variables than the constraint mentions (one sorting first, one last): every
+    # constraint row covers a strict subset of the columns
+    names = sorted(names + ["A0", "zz"], key=natural_key)
     for nm in names:
         obj = ("bin", "+", obj, ("bin", "**", ("var", nm), ("c", 2)))
     pr = PR.prob("min", obj, (c,), (), tuple(params.items()))
